@@ -259,3 +259,55 @@ package objecttree
 //@   requires umVerifyAll
 //@   loop 0:
 //@     invariant umVerifyAll
+
+// ---------------------------------------------------------------------------------------------
+// C05: content that must be encrypted never leaves the builder as plaintext.  prepareBuilderContent
+// turns "should be encrypted" into Unencrypted=false together with the tree's current read key and
+// the id of the ACL's current key generation (and fails when no key is available); Build stores and
+// signs exactly the ciphertext Encrypt returned, and fails - instead of falling back to the plaintext -
+// when it is asked to encrypt without a key.
+//@ func iface crypto.SymKey.Encrypt
+//@   pure
+//@ func iface crypto.PrivKey.Sign
+//@   pure
+//@ func (*github.com/anyproto/any-sync/commonspace/object/tree/treechangeproto.TreeChange).MarshalVT
+//@   modifies nothing
+//@ func (*github.com/anyproto/any-sync/commonspace/object/tree/treechangeproto.RawTreeChange).MarshalVT
+//@   modifies nothing
+//@ package github.com/anyproto/any-sync/util/cidutil
+//@ func NewCidFromBytes
+//@   modifies nothing
+//@ package github.com/anyproto/any-sync/commonspace/object/tree/objecttree
+//@ func (*changeBuilder).Build
+//@   requires c != nil && payload.PrivKey != nil
+//@   modifies nothing
+//@   ensures [no_key_no_change]   !payload.Unencrypted && payload.ReadKey == nil ==> err != nil
+//@   ensures [ciphertext_only]    err == nil && !payload.Unencrypted ==> ch.Data == payload.ReadKey.Encrypt(payload.Content) && payload.ReadKey.Encrypt#1(payload.Content) == nil
+//@   ensures [plaintext_only_on_request] err == nil && payload.Unencrypted ==> ch.Data == payload.Content
+//@   ensures [key_generation_named] err == nil ==> ch.ReadKeyId == payload.ReadKeyId && ch.Id == rawIdChange.Id
+
+//@ ghost keysRefreshed Bool stable
+//@ func (*objectTree).readKeysFromAclState
+//@   trusted
+//@   modifies fields objectTree.currentReadKey
+//@   modifies kinds map:map[string]crypto.SymKey
+//@   sets keysRefreshed = result == nil
+//@ package github.com/anyproto/any-sync/commonspace/object/acl/list
+//@ func (*AclState).Permissions
+//@   modifies nothing
+//@ func (*AclState).CurrentReadKeyId
+//@   pure
+//@ func iface list.AclList.Head
+//@   modifies nothing
+//@   ensures result != nil
+//@ func iface list.AclList.RLock
+//@   modifies nothing
+//@ func iface list.AclList.RUnlock
+//@   modifies nothing
+//@ package github.com/anyproto/any-sync/commonspace/object/tree/objecttree
+//@ func (*objectTree).prepareBuilderContent
+//@   requires ot != nil && ot.aclList != nil && ot.tree != nil && content.Key != nil
+//@   assumes ot.aclList.AclState() != nil
+//@   requires !keysRefreshed
+//@   ensures [encrypted_means_keyed] err == nil && content.ShouldBeEncrypted ==> !cnt.Unencrypted && cnt.ReadKey != nil && cnt.ReadKey == ot.currentReadKey && keysRefreshed && cnt.ReadKeyId == ot.aclList.AclState().CurrentReadKeyId()
+//@   ensures [flag_follows_request] err == nil ==> cnt.Unencrypted == !content.ShouldBeEncrypted && cnt.Content == content.Data
